@@ -5,7 +5,7 @@ from .c04 import SyncProp
 class C06(SyncProp):
     id = "C06"
     kinds = ("cond",)
-    sizes = {"quick": 1500, "thorough": 60000}
+    sizes = {"quick": 1500, "thorough": 20000}
     ready = True
     nontrivial_labels = ("notify_one-with>=2-waiters", "notify_all-with>=2-waiters", "notify-at-deadline", "cv-relock-queues",
                          "cv-timeout")
